@@ -17,6 +17,8 @@ mod cursor;
 mod dw;
 #[path = "reuse/entry.rs"]
 mod entry;
+#[path = "reuse/lineseq.rs"]
+mod lineseq;
 #[path = "reuse/unwind.rs"]
 mod unwind;
 
@@ -35,6 +37,7 @@ fn c20(tier: Tier) -> CheckDef {
     subs.extend(cache::subs(tier));
     subs.extend(convert::subs(tier));
     subs.extend(cursor::subs(tier));
+    subs.extend(lineseq::subs(tier));
     let mut required = vec![];
     required.extend(unwind::required());
     required.extend(entry::required());
@@ -42,6 +45,7 @@ fn c20(tier: Tier) -> CheckDef {
     required.extend(cache::required());
     required.extend(convert::required());
     required.extend(cursor::required());
+    required.extend(lineseq::required());
     CheckDef {
         level: "model_checking",
         rule: "explicit-state exploration of operation histories on ONE piece of reusable state (UnwindContext, DebuggingInformationEntry buffer, EntriesTree, cloned iterator, Dwarf with AbbreviationsCache); every history up to the stated length is executed on the real code and EVERY step's observable result sequence is compared with the same operation on freshly constructed state; a case is distinct when its action sequence (and input configuration) differs; distinct_nontrivial counts histories (for BFS subs: unique states by the complete Debug rendering of the context); states/transitions: BFS subs count unique states and executed transitions, enumeration subs count executed steps as transitions and histories as traces".into(),
